@@ -70,14 +70,20 @@ def gen_case(rng: random.Random):
     return {"ops": ops, "srcs": srcs, "prog": prog, "F": F, "imp": rng.random() < 0.3}
 
 
-def run_case(args):
-    """execute one generated case and return its trace (or a harness-level problem)"""
+def run_case(args, second=False):
+    """execute one generated case and return its trace (or a harness-level problem); second = the same session
+    again on the file the first one wrote (its trace starts from the sources observed after the first)"""
     case, seed = args
     from . import inline_driver, render_core
     rng = random.Random("%s|%s" % (json.dumps(case, sort_keys=True), seed))
     ops, srcs, prog = case["ops"], case["srcs"], case["prog"]
     beta = render_core.Beta(rng, NATOMS, ops, render_core.needs_order(ops, prog))
     text = render_core.render(ops, srcs, prog, beta, case["imp"], rng)
+    if second:
+        first = run_case(args)
+        if first.get("problem") or any(e.get("v") == 99 for a in first["trace"]["after"] for e in a["e"]):
+            return None
+        text, srcs = first["new"], first["trace"]["after"]
     obs = inline_driver.run_session({"test_case.py": text}, case["F"])
     if obs.get("import_error") or obs.get("finish_error"):
         return {"case": case, "text": text, "problem": ["finish", obs.get("import_error") or obs.get("finish_error")[:2]]}
@@ -108,10 +114,11 @@ def run_case(args):
         after.append(a)
     trace = {"srcs": srcs, "U": case["F"], "A": case["F"], "imp": case["imp"], "ntests": len(prog), "events": events,
              "failed": failed, "pending": pend, "after": after}
-    return {"case": case, "text": text, "new": obs["files"]["test_case.py"], "trace": trace, "problem": None}
+    return {"case": case, "text": text, "new": obs["files"]["test_case.py"], "trace": trace, "problem": None,
+            "second": second, "rewritten": obs["files"]["test_case.py"] != text}
 
 
-def validate(chk, n, flags="any", cases=None):
+def validate(chk, n, flags="any", cases=None, second=0.0):
     """generate n cases, execute them, validate the traces with TLC; mismatches go to chk
     flags: "any" = a random approved set per case, "none" = nothing approved (C06)"""
     from . import pool, tlc
@@ -123,8 +130,13 @@ def validate(chk, n, flags="any", cases=None):
             for c in cases:
                 c["F"] = []
     results = []
-    for out in pool.parallel_map(_worker, [(c, chk.seed) for c in pool.chunks(cases, 25)]):
-        results += out
+    jobs = [(c, chk.seed, False) for c in pool.chunks(cases, 25)]
+    if second:
+        # histories: the same session a second time (a fraction `second` of the cases)
+        again = [c for c in cases if c["F"] and rng.random() < second]
+        jobs += [(c, chk.seed, True) for c in pool.chunks(again, 25)]
+    for out in pool.parallel_map(_worker, jobs):
+        results += [r for r in out if r is not None]
     good = [r for r in results if r.get("problem") is None and "error" not in r]
     for r in results:
         if "error" in r:
@@ -147,6 +159,8 @@ def validate(chk, n, flags="any", cases=None):
     tlc.cleanup(res)
     if len(verdicts) != len(good):
         raise MachineryError("TraceCore gave %d verdicts for %d traces:\n%s" % (len(verdicts), len(good), res.raw_tail[-1500:]))
+    first_src_ok = {json.dumps(r["case"], sort_keys=True): verdicts[tid][0][3]
+                    for tid, r in enumerate(good, 1) if not r["second"]}
     for tid, r in enumerate(good, 1):
         (res_ok, failed_ok, pend_ok, src_ok), detail = verdicts[tid]
         F = r["case"]["F"]
@@ -154,7 +168,7 @@ def validate(chk, n, flags="any", cases=None):
         nontrivial = any(tr["failed"]) or any(tr["pending"]) or any(e["res"] in ("TE", "UE") for e in tr["events"])
         chk.count(1, "trace|%d" % tid if nontrivial else None)
         chk.validated(1)
-        rp = {"kind": "trace-case", "case": r["case"], "seed": chk.seed, "module": r["text"], "module_after": r["new"], "trace": r["trace"], "tlc": detail}
+        rp = {"kind": "trace-case", "case": r["case"], "seed": chk.seed, "second": r["second"], "module": r["text"], "module_after": r["new"], "trace": r["trace"], "tlc": detail}
         if not res_ok:
             chk.mismatch("trace-result", {"clause": "trace-result", "F": F}, rp, props=(["C06"] if not F else ["C07", "C02"]) + ["C14", "C17", "C18"])
         if not failed_ok:
@@ -162,18 +176,27 @@ def validate(chk, n, flags="any", cases=None):
         if not pend_ok:
             chk.mismatch("trace-pending", {"clause": "trace-pending", "F": F}, rp, props=["C05", "C14"])
         if not src_ok:
-            chk.mismatch("trace-newsrc", {"clause": "trace-newsrc", "F": F}, rp, props=["C05", "C14"] + (["C04"] if not F else []))
+            chk.mismatch("trace-newsrc", {"clause": "trace-newsrc", "F": F, "second": r["second"]}, rp,
+                         props=["C05", "C14"] + (["C04"] if not F else []) + (["C08"] if r["second"] else []))
+        elif r["second"] and r["rewritten"]:
+            if first_src_ok.get(json.dumps(r["case"], sort_keys=True), True):
+                # the model itself predicts that the second identical session changes the file
+                chk.mismatch("model-second-run-writes", {"clause": "model-second-run-writes", "F": F}, rp, props=[])
+            else:
+                # the first session did not write what the model says (reported for C05), and the second identical
+                # session writes again: the first run was no fixed point
+                chk.mismatch("second-run-writes", {"clause": "second-run-writes", "F": F, "source": "trace"}, rp, props=["C08"])
     if good and len(chk.cov["samples"]) < 8:
         chk.sample({"kind": "code->spec trace (beyond bounds)", "case": good[0]["case"], "events": good[0]["trace"]["events"][:6],
                     "observed_end": {k: good[0]["trace"][k] for k in ("failed", "pending", "after")}})
 
 
 def _worker(args):
-    cases, seed = args
+    cases, seed, second = args
     out = []
     for c in cases:
         try:
-            out.append(run_case((c, seed)))
+            out.append(run_case((c, seed), second))
         except Exception:  # noqa
             import traceback
             out.append({"error": traceback.format_exc()[-1500:]})
